@@ -13,30 +13,45 @@ pub struct Formatted {
     pub error: Option<String>,
 }
 
-/// Returns the vector of chars of the fractional part of a *positive* number:
+/// Returns the vector of chars of the fractional part of a *positive* number that is already
+/// rounded to `precision` decimals and 15 significant digits, without trailing zeros:
 /// 3.1415926 ==> ['1', '4', '1', '5', '9', '2', '6']
-fn get_fract_part(value: f64, precision: i32, int_len: usize) -> Vec<char> {
-    let b = format!("{:.1$}", value.fract(), precision as usize)
-        .chars()
-        .collect::<Vec<char>>();
-    let l = b.len() - 1;
-    let mut last_non_zero = b.len() - 1;
-    for i in 0..l {
-        if b[l - i] != '0' {
-            last_non_zero = l - i + 1;
-            break;
-        }
-    }
-    if last_non_zero < 2 {
+fn get_fract_part(value: f64, precision: i32) -> Vec<char> {
+    if value == 0.0 {
         return vec![];
     }
-    let max_len = if int_len > 15 {
-        2_usize
-    } else {
-        15_usize - int_len + 1
-    };
-    let last_non_zero = usize::min(last_non_zero, max_len + 1);
-    b[2..last_non_zero].to_vec()
+    // decimal places covered by the 15 significant digits of the value
+    let repr = format!("{value:.14e}");
+    let exponent = repr
+        .split_once('e')
+        .and_then(|(_, e)| e.parse::<i32>().ok())
+        .unwrap_or(0);
+    let reliable = (14 - exponent).max(0) as usize;
+    let digits = usize::min(precision.max(0) as usize, reliable);
+    let text = format!("{value:.digits$}");
+    match text.split_once('.') {
+        Some((_, fract)) => fract.trim_end_matches('0').chars().collect(),
+        None => vec![],
+    }
+}
+
+/// Rounds `value` half away from zero at `decimals` decimal places, after reducing it to the
+/// 15 significant digits the engine works with (this is what ROUND does, in decimal).
+fn round_to_decimals(value: f64, decimals: i32) -> f64 {
+    let reduced = to_precision(value, 15);
+    // the reduction of the largest doubles overflows
+    let value = if reduced.is_finite() { reduced } else { value };
+    if value == 0.0 || value.abs() >= 1e15 {
+        return value;
+    }
+    let scale = 10.0_f64.powi(decimals);
+    let scaled = value * scale;
+    if !scaled.is_finite() {
+        return value;
+    }
+    // the product is off by a few units in the 17th digit: reduce it again before rounding
+    let rounded = to_precision(scaled, 15).round();
+    to_precision(rounded / scale, 15)
 }
 
 /// Return true if we need to add a separator in position digit_index
@@ -434,25 +449,32 @@ pub fn format_number(value_original: f64, format: &str, locale: &Locale) -> Form
             }
             let tokens = &p.tokens;
             value = value * 100.0_f64.powi(p.percent) / (1000.0_f64.powi(p.comma));
-            // p.precision is the number of significant digits _after_ the decimal point
-            value = to_precision(
-                value,
-                (p.precision as usize) + format!("{}", value.abs().floor()).len(),
-            );
+            // p.precision is the number of digits _after_ the decimal point
+            if !p.is_scientific {
+                value = round_to_decimals(value, p.precision);
+            }
             let mut value_abs = value.abs();
             let mut exponent_part: Vec<char> = vec![];
-            let mut exponent_is_negative = value_abs < 10.0;
+            let mut exponent_is_negative = false;
             if p.is_scientific {
                 if value_abs == 0.0 {
                     exponent_part = vec!['0'];
-                    exponent_is_negative = false;
                 } else {
                     // TODO: Implement engineering formatting.
-                    let exponent = value_abs.log10().floor();
+                    // mantissa and exponent of the 15 significant digits, read off the decimal
+                    // representation (no log10, no division by a power of ten)
+                    let repr = format!("{value_abs:.14e}");
+                    let (m, e) = repr.split_once('e').unwrap_or((&repr, "0"));
+                    let mut exponent = e.parse::<i32>().unwrap_or(0);
+                    let mut mantissa = round_to_decimals(m.parse::<f64>().unwrap_or(0.0), p.precision);
+                    if mantissa >= 10.0 {
+                        mantissa /= 10.0;
+                        exponent += 1;
+                    }
+                    exponent_is_negative = exponent < 0;
                     exponent_part = format!("{}", exponent.abs()).chars().collect();
-                    value /= 10.0_f64.powf(exponent);
-                    value = to_precision(value, 15);
-                    value_abs = value.abs();
+                    value = if value < 0.0 { -mantissa } else { mantissa };
+                    value_abs = mantissa;
                 }
             }
             let l_exp = exponent_part.len() as i32;
@@ -465,7 +487,7 @@ pub fn format_number(value_original: f64, format: &str, locale: &Locale) -> Form
             if int_number as i64 == 0 {
                 int_part = vec![];
             }
-            let fract_part = get_fract_part(value_abs, p.precision, int_part.len());
+            let fract_part = get_fract_part(value_abs, p.precision);
             // ln is the number of digits of the integer part of the value
             let ln = int_part.len() as i32;
             // digit count is the number of digit tokens ('0', '?' and '#') to the left of the decimal point
@@ -477,8 +499,8 @@ pub fn format_number(value_original: f64, format: &str, locale: &Locale) -> Form
             let group_sizes = locale.numbers.decimal_formats.standard.to_owned();
             let group_separator = symbols.group.to_owned();
             let decimal_separator = symbols.decimal.to_owned();
-            // There probably are better ways to check if a number at a given precision is negative :/
-            let is_negative = value < -(10.0_f64.powf(-(p.precision as f64)));
+            // value is already rounded to the precision of the format
+            let is_negative = value < 0.0;
             let mut needs_period = false;
 
             for token in tokens {
@@ -532,7 +554,7 @@ pub fn format_number(value_original: f64, format: &str, locale: &Locale) -> Form
                                     };
                                     let sep = if use_group_separator(
                                         p.use_thousands,
-                                        ln - digit_index,
+                                        digit_count - index,
                                         &group_sizes,
                                     ) {
                                         &group_separator
@@ -578,7 +600,11 @@ pub fn format_number(value_original: f64, format: &str, locale: &Locale) -> Form
                                     text = format!("{text}0");
                                 }
                             } else if digit.kind == '?' {
-                                text = format!("{text} ");
+                                if needs_period {
+                                    text = format!("{text}{decimal_separator} ");
+                                } else {
+                                    text = format!("{text} ");
+                                }
                             } else if digit.kind == '#' && needs_period {
                                 // FIXME: This is what Excel does, but it transforms "3" into "3."
                                 text = format!("{text}{}", decimal_separator);
@@ -611,11 +637,13 @@ pub fn format_number(value_original: f64, format: &str, locale: &Locale) -> Form
 
                                     text = format!("{text}{c}");
                                 }
-                            } else {
+                            } else if index == 0 {
+                                // more digits than placeholders: the first placeholder takes the excess
                                 for i in 0..number_index + 1 {
                                     text = format!("{}{}", text, exponent_part[i as usize]);
                                 }
-                                digit_index += number_index + 1;
+                            } else {
+                                text = format!("{}{}", text, exponent_part[number_index as usize]);
                             }
                         }
                     }
